@@ -17,6 +17,23 @@ def cfg(name, **kw):
     return name, '\n'.join(lines) + '\n'
 
 
+HO_CLASS_PROPS = dict(CLASS_PROPS, **{'sub': ['C05', 'C15', 'C14'], 'blocked': ['C14', 'C15']})
+
+
+def ho_cfg(name, **kw):
+    c = dict(MaxInner=2, MaxSteps=5, MaxPerSrc=3, Cuts='TRUE', InstSetName='"all"')
+    c.update(kw)
+    lines = ['SPECIFICATION Spec', 'CONSTANTS'] + [' %s = %s' % (k, v) for k, v in c.items()]
+    lines += ['INVARIANTS TypeOK Grammar ClosedReleasesAll ConcatOneAtATime CollectFirst EmitCase']
+    return name, '\n'.join(lines) + '\n'
+
+
+def run_ho(rep, pid, thorough):
+    """HO.tla: higher-order operators over an ASYNCHRONOUS outer source (MergeAll / MergeMap / ConcatAll / FlatMap / CombineLatestAll / ZipAll)."""
+    cfgs = [ho_cfg('ho-all', MaxSteps=6 if thorough else 5), ho_cfg('ho-all-nocut', MaxSteps=7 if thorough else 6, Cuts='FALSE')]
+    pp.run(rep, pid, cfgs, modes='ctl-unsafe,ctl-safe', module='HOGen', replay_cmd='replay-multi', class_props=HO_CLASS_PROPS, prefix='multi.')
+
+
 REUSE_PROPS = {'reuse-values': ['C12'], 'reuse-torn': ['C12'], 'reuse-sub': ['C12'], 'reuse-closed': ['C12'], 'reuse-late': ['C12']}
 
 
@@ -37,4 +54,6 @@ def run(rep, pid, thorough):
 
 
 def replay_case(pid, path):
-    return pp.replay_case(pid, path, replay_cmd='replay-multi', class_props=CLASS_PROPS)
+    import json
+    ho = json.load(open(path))['replay'].get('module') == 'HOGen'
+    return pp.replay_case(pid, path, replay_cmd='replay-multi', class_props=HO_CLASS_PROPS if ho else CLASS_PROPS)
